@@ -15,6 +15,7 @@
 package blockfetch
 
 import (
+	"bytes"
 	"context"
 	"errors"
 	"fmt"
@@ -26,6 +27,20 @@ import (
 	lcommon "github.com/blinklabs-io/gouroboros/ledger/common"
 	"github.com/blinklabs-io/gouroboros/protocol"
 	pcommon "github.com/blinklabs-io/gouroboros/protocol/common"
+)
+
+// Errors returned by GetBlock when the server's batch does not consist of
+// exactly the one requested block.
+var (
+	ErrBlockNotReturned = errors.New(
+		"block-fetch: batch ended without returning the requested block",
+	)
+	ErrUnexpectedBlocks = errors.New(
+		"block-fetch: server returned more than the one requested block",
+	)
+	ErrBlockMismatch = errors.New(
+		"block-fetch: returned block does not match the requested point",
+	)
 )
 
 type clientLifecycleState uint8
@@ -435,6 +450,12 @@ func (c *Client) GetBlock(point pcommon.Point) (ledger.Block, error) {
 			return nil, protocol.ErrProtocolShuttingDown
 		}
 		block = b
+	case <-c.batchDoneChan:
+		// The server ended the batch without sending a block. The protocol
+		// is back in the Idle state, so fail the call instead of waiting
+		// for a block that will never arrive.
+		c.releaseBusy(token)
+		return nil, ErrBlockNotReturned
 	case <-protocolDone:
 		c.releaseBusy(token)
 		return nil, protocol.ErrProtocolShuttingDown
@@ -442,15 +463,35 @@ func (c *Client) GetBlock(point pcommon.Point) (ledger.Block, error) {
 	// Wait for BatchDone before returning to ensure the protocol state machine
 	// completes the batch properly (transitions back to Idle state).
 	// handleBatchDone signals batchDoneChan in GetBlock mode instead of unlocking.
-	select {
-	case <-c.batchDoneChan:
-		// BatchDone was processed successfully
-		c.releaseBusy(token)
-		return block, nil
-	case <-protocolDone:
-		// Shutdown while waiting for BatchDone
-		c.releaseBusy(token)
-		return nil, protocol.ErrProtocolShuttingDown
+	// Any additional block is drained (so that the message handler is never
+	// left blocked on blockChan) and makes the call fail.
+	extraBlocks := false
+	for {
+		select {
+		case _, ok := <-c.blockChan:
+			if !ok {
+				c.releaseBusy(token)
+				return nil, protocol.ErrProtocolShuttingDown
+			}
+			extraBlocks = true
+		case <-c.batchDoneChan:
+			// BatchDone was processed successfully
+			c.releaseBusy(token)
+			if extraBlocks {
+				return nil, ErrUnexpectedBlocks
+			}
+			// Only hand out the block that was asked for
+			if block == nil ||
+				block.SlotNumber() != point.Slot ||
+				!bytes.Equal(block.Hash().Bytes(), point.Hash) {
+				return nil, ErrBlockMismatch
+			}
+			return block, nil
+		case <-protocolDone:
+			// Shutdown while waiting for BatchDone
+			c.releaseBusy(token)
+			return nil, protocol.ErrProtocolShuttingDown
+		}
 	}
 }
 
